@@ -321,8 +321,24 @@ def check_composite(ctx, comp, parts, where):
                           {"where": where, "feature": _ftname(ft), "got": list(comp.column_names[ft]), "want": names})
 
 
+def earlier_session(ctx, case):
+    """Something else the process did before: a default composite (everything that is subscribed)
+    over a dispatcher whose observers cover only some feature types."""
+    if case["seed"] % 10 != 7:
+        return
+    from job_shop_lib.dispatching import Dispatcher
+    from job_shop_lib.dispatching.feature_observers import CompositeFeatureObserver
+    rng = random.Random(case["seed"] + 3)
+    d0 = Dispatcher(gen.build(case["instance"]))
+    t0 = rng.choice(["position_in_job", "remaining_operations"])
+    make_observer(d0, {"type": t0, "feature_types": None, "form": "class"})
+    CompositeFeatureObserver(d0)
+    ctx.count("default_composites_over_partial_coverage_built_earlier_in_the_process")
+
+
 def run_history(ctx, case):
     from job_shop_lib.dispatching.feature_observers import CompositeFeatureObserver
+    earlier_session(ctx, case)
     HUGE_MODE[0] = bool(case.get("huge"))
     rng = random.Random(case["seed"])
     run = Run(case["instance"], case.get("filter"))
